@@ -421,10 +421,15 @@ def runK8s (c : Json) : E Json := do
   let unreachable := boolD c "unreachable" false
   let evs ← (← arr c "steps").mapM fun s => do
     let answers := if unreachable then [PatchAnswer.noAnswer] else (strs s "patch").toOption.getD [] |>.map parseAnswer
-    pure (activeInParts (fldD s "obj" Json.null), answers)
+    let o := fldD s "obj" Json.null
+    -- the `config` values the resource holds (the harness puts the case's value at the one mechanism reference)
+    let configs := match fld o "config" with
+      | .ok j => [toVal j]
+      | .error _ => []
+    pure (configs, activeInParts o, answers)
   let out (g : StatusGuards) : Json :=
     let r := evs.foldl (fun (acc : Proc Nat × List Json) e =>
-      let p := run false [ruleSetEvent g e.1 e.2] acc.1
+      let p := run false [ruleSetEventWith g true e.1 e.2.1 e.2.2] acc.1
       (p, acc.2 ++ [Json.bool p.alive])) (⟨true, 0, 0⟩, [])
     Json.mkObj [("alive", Json.bool r.1.alive), ("handled", jarr r.2)]
   pure (Json.mkObj [("res", out .head), ("stats", Json.mkObj [("orig", out .original)])])
